@@ -12,6 +12,7 @@ pub mod c08;
 pub mod c08_solve;
 pub mod c09;
 pub mod c09_real;
+pub mod c10;
 pub mod c11;
 pub mod c12;
 pub mod c13;
@@ -45,6 +46,7 @@ pub fn registry() -> Vec<Check> {
         Check { id: "C07", run: c07::run, replay: c07::replay, worker: Some(c07::worker) },
         Check { id: "C08", run: c08::run, replay: c08::replay, worker: None },
         Check { id: "C09", run: c09::run, replay: c09::replay, worker: None },
+        Check { id: "C10", run: c10::run, replay: c10::replay, worker: Some(c10::worker) },
         Check { id: "C11", run: c11::run, replay: c11::replay, worker: Some(c11::worker) },
         Check { id: "C12", run: c12::run, replay: c12::replay, worker: Some(c12::worker) },
         Check { id: "C13", run: c13::run, replay: c13::replay, worker: None },
